@@ -196,7 +196,7 @@ def _literal_all(a, b):
     return fwd, rev
 
 
-def _formula_all(a, b):
+def _formula_all(a, b, warm=False):
     xl = lib.lib()
     cells = {}
     presets = {}
@@ -222,6 +222,25 @@ def _formula_all(a, b):
     except Exception as err:  # noqa: BLE001
         t = exc_tag(err)
         return ({s: t for _, s in OPS}, {s: t for _, s in OPS})
+    if warm:
+        # history: the twelve comparison cells are first evaluated with the
+        # two operands EXCHANGED, then the operands are put in place with
+        # set_cell_value and everything is evaluated again on the same
+        # evaluator; only the second answers are judged
+        try:
+            ev.set_cell_value('Sheet1!A1', to_native(b))
+            ev.set_cell_value('Sheet1!B1', to_native(a))
+            for i in range(len(OPS)):
+                for col in 'CD':
+                    try:
+                        ev.evaluate('Sheet1!%s%d' % (col, i + 1))
+                    except Exception:  # noqa: BLE001
+                        pass
+            ev.set_cell_value('Sheet1!A1', to_native(a))
+            ev.set_cell_value('Sheet1!B1', to_native(b))
+        except Exception as err:  # noqa: BLE001
+            t = exc_tag(err)
+            return ({s: t for _, s in OPS}, {s: t for _, s in OPS})
     for i, (name, sym) in enumerate(OPS):
         fwd[sym] = lib.evaluate(model, 'Sheet1!C%d' % (i + 1), ev)
         rev[sym] = lib.evaluate(model, 'Sheet1!D%d' % (i + 1), ev)
@@ -243,7 +262,9 @@ def judge(case):
     elif mode == 'literal':
         fwd, rev = _literal_all(a, b)
     else:
-        fwd, rev = _formula_all(a, b)
+        import zlib
+        warm = zlib.crc32(repr((a, b)).encode()) % 3 == 0
+        fwd, rev = _formula_all(a, b, warm)
     blank = a[0] == 'z' or b[0] == 'z'
     res.labels = (mode, 'types:' + ty)
     if blank:
